@@ -25,6 +25,67 @@ CHECKS = {
     note=('Trusted: Coq kernel, extraction (ExtrOcamlBasic), OCaml driver, Python harness incl. state construction on the real QvmCpu. Modelled, not verified: qvm/cpu.py, cell.py, machine.py. '
           'Not modelled: OS signal delivery (the flag is set directly), float ** with non-integer/large exponents (excluded, counted). The unguarded totality statement is false on the unchanged tree: see KNOWN_FINDINGS.'),
     technique='Rocq proof over a hand-written executable machine model + differential correspondence (single-step and whole-run) against the implementation'),
+ 'C09': dict(
+    category='proof',
+    text=('Rocq theorems over executable models of the assembler, section writer/reader, machine decoder, disassembler and listing: decode(encode) = id for every instruction '
+          '(floats on bit patterns), for code sections and for the module sections under explicit field widths; disassembly of assembled items = listing after label/variable/device/literal '
+          'resolution; soundness of the target/frame checker that is run (extracted) on every compiled module; the instruction table is REGENERATED from qvm/instrs.py on every run '
+          '(tools/gen_tables.py -> coq/Gen/Instrs.v) with unique-opcode, unique-mnemonic and decoder-agreement obligations by vm_compute; all tied to the real bytes(code), QModule.parse, '
+          'disassemble(), str(code), assembled and get_instruction_at on corpus + feature programs x 6 configurations and synthetic modules at the width limits.'),
+    design_ref='DESIGN.md 5/C09',
+    note=('Trusted: Coq kernel (coqchk: no axioms), extraction, gen_tables.py translator, OCaml driver, Python harness. Modelled, not verified: QvmCode.__bytes__/assembled/__str__ (code part), qvm/module.py, get_instruction_at. '
+          'Variable indices are taken from the real memlayout as a certificate; frame exactness is harness-checked per module; the debug section is outside the model; guarded by D30 field widths.'),
+    technique='Rocq proof over generated + hand-written Gallina models; finite table obligations by vm_compute; translation validation of every module; differential correspondence'),
+ 'C11': dict(
+    category='proof',
+    text=('Rocq theorems about the executable model of the debug map (collector + assembler offsets, add_node, finalize, find_stmt, line/column conversion) for every well-nested marker stream: no collector assertion failure; '
+          'all recorded offsets on instruction boundaries; collected ranges laminar; routine records exact; find_stmt sound, complete, innermost, first in table order and equal to the machine model lookup used by RESUME; '
+          'every address inside a block of a generator-shaped stream covered by a record inside that block (_partial: needs code in a child or an in-range empty-block marker); line = 1 + newlines before the offset; '
+          'machine-checked counter-examples for what the unchanged code violates (final table not laminar, unrecorded block, misattributed jump). Tied to the real DebugInfoCollector/add_node/finalize/find_stmt by bounded-exhaustive '
+          'differential tests and to the real compiler marker stream and tables on the corpus, a statement-kind x context x position family and generated programs at levels 0/1/2; an independent oracle checks the property on the real artefacts '
+          '(boundaries, laminarity, coverage, innermost lookup, line and source extract of every record, io/trap attribution at run time).'),
+    design_ref='DESIGN.md 5/C11',
+    note=('Trusted: Coq kernel, extraction, OCaml driver, Python harness (stream extraction from code._instrs, decoder, oracle). wf_markers/good are hypotheses checked on every compiled program, not proved about qvm_codegen.py; '
+          'pyparsing source locations are inside the correspondence only; the peephole pass is checked via the level-1 vs level-2 marker comparison, not proved. Open findings D45m D46m D47m (debug map) and D19.'),
+    technique='Rocq proof over a hand-written Gallina model, differential correspondence, property oracle on implementation artefacts'),
+ 'C12': dict(
+    category='proof',
+    text=('Rocq theorems over the executable debugger model (Models/Debugger.v) on the machine model: every command history only ticks the machine (equality up to halted/reason); device events form a chain and are a prefix of the free run; '
+          'the final state is the free run state as long as the debugger never drives a finished machine; continue stops only at, and at the first, user breakpoint; break resolves to the first executable statement at or after the line; '
+          'delbr removes exactly one occurrence; step stops at the first statement change; vm_compute refutations for next on recursion (D25) and resume-after-trap. Tied to the code by T-dbg: the real qvm.dbg.Cmd over compiled programs '
+          'x {-O0,-O2} x all short + seeded long command histories against the extracted model, snapshots after every command, plus direct property judges against a free run.'),
+    design_ref='DESIGN.md 5/C12',
+    note=('Trusted: Coq kernel (incl. vm_compute), ExtrOcamlBasic, ocaml/driver.ml, Python harness. Modelled, not verified: the dbg.py commands listed, cpu.run/next, find_stmt. Not covered: routine/address breakpoints, print/bt/cur, OS signals, VAL. '
+          'The transparency theorem is guarded (mres = false) on the unchanged tree because of D25b/D25c.'),
+    technique='Rocq proof over a hand-written Gallina model + differential correspondence against the implementation'),
+ 'C15': dict(
+    category='proof',
+    text=('23 closed Rocq theorems: parse_data returns items iff the text is generated by the item grammar (split at commas outside quotes, unquoted trimmed, quoted verbatim, empty = Empty) and never an empty list; for all non-empty parts the k-th READ is the k-th flattened item converted; '
+          'Empty reads 0 or ""; text into a numeric variable and reading past the end are DEVICE_ERROR; for every placement of labels, SUB-local labels and DATA the data section flattens to source order; RESTORE l is exact whenever a DATA directly follows l (D12 guard); '
+          'compiled programs without bare RESTORE (D11 guard) equal the specification, as does the D11-fixed model without that guard; _refuted witnesses for D11, D12, D44, D44b. Tied to the code on every run: real parse_data and data_stmt on all texts over {a,1,blank,comma,quote,colon} up to a length, '
+          'real DataDevice on all READ/RESTORE sequences up to a length, compiled programs with DATA/labels in all orders at the six configurations, judged by the extracted Coq specification.'),
+    design_ref='DESIGN.md 5/C15',
+    note=('Trusted: Coq kernel, ExtrOcamlBasic, OCaml driver, Python harness (generators, renderer, classifier). Modelled, not verified: parse_data, data_stmt + action (one line, no TAB), Pass1 grouping, get_data_label_index/gen_read/gen_restore, DataDevice; int()/float() through Models/NumFmt.v. '
+          'Inside the correspondence only: grammar of labels/READ/RESTORE/SUB, data section encoding, PRINT. Guards: plain_text, parts non-empty, type ids 1..5.'),
+    technique='Rocq proof over hand-written Gallina models + differential correspondence judged by an extracted Coq specification'),
+ 'C18': dict(
+    category='proof',
+    text=('Rocq theorems about the executable model of INPUT (Models/Input.v): prompt text, accept-iff (relative to the numerals int()/float() read) and soundness for the strict numeral grammar, retry for every number of rejected lines (induction), '
+          'assignment order consumed by the generated stores, decode(encode) of the argument protocol; no-effect-of-rejection proved for clean rejections (_partial) and refuted in general (D13), proved in full for the repaired variant exec_input_fixed; D29 refutation witnesses. '
+          'Tied to the code by a differential correspondence with the real _exec_input (all types x 83-field alphabet x histories <= 3, malformed stacks) and with compiled INPUT statements at 6 configurations judged against the Coq specification.'),
+    design_ref='DESIGN.md 5/C18',
+    note=('Trusted: Coq kernel, ExtrOcamlBasic, OCaml driver, Python harness (event normalisation, signature classification). Modelled, not verified: _exec_input, gen_input, parse_input; stores, arrays/records and the grammar only through the compiled-program correspondence. '
+          'Specification choices: trimming = str.strip white space; plain decimal numerals only.'),
+    technique='Rocq proof over hand-written Gallina model + differential correspondence against the implementation'),
+ 'C19': dict(
+    category='proof',
+    text=('21 closed Rocq theorems on the model of PrintUsingFormatter and the USING hand-over of _exec_print. Unguarded, for every field and value: rendered length >= width and = width unless the text starts with "%", "%" leads exactly when the length exceeds the width; '
+          'literal/escape copying; & and ! fields; left-to-right consumption; newline rule. Under decidable guards: equality with an independent specification (round half-even on the exact binary value, proved to be a nearest rounding; right alignment; sign position; thousands separators) and no host exception. '
+          'The unguarded statements are refuted by 6 witness theorems (D16/D24). Tied to the code by the real PrintUsingFormatter on all format strings up to a length over {#,.,comma,+,-,&,!,_,a,blank} x value lists, extreme values, the real _exec_print hand-over and compiled PRINT USING statements at 6 configurations; '
+          '16 sampled extracted results are re-evaluated by vm_compute inside Coq on every run.'),
+    design_ref='DESIGN.md 5/C19',
+    note=('Trusted: Coq kernel; ExtrOcamlBasic extraction (sample re-checked by vm_compute every run); OCaml driver and Python harness. Modelled, not verified: qvm/using.py and the USING branch of _exec_print. Python format/repr are re-implemented in Base/Dec.v and compared every run. Field boundaries come from the scanner.'),
+    technique='Rocq proof over a hand-written Gallina model + differential correspondence against the implementation'),
 }
 
 ALL = ['C%02d' % i for i in range(1, 21)]
